@@ -35,7 +35,12 @@ RULE = ('product family: all sheet descriptions that differ from the default des
         'coordinates (L=2 quick, 3 thorough), each written to an .xlsx file and read back; block family: '
         'all emptiness patterns of a rows x 4 block for each column quadruple; calls family: all histories '
         'of <= 2 (thorough 3) read_excel calls over 18 one-row sheets without resetting the module in '
-        'between (every other read starts from a re-executed pmutt.io.excel); a case is distinct by its '
+        'between (every other read starts from a re-executed pmutt.io.excel); long family: for every '
+        'indexed or repeatable header kind (list.name.i from 0 and from 1, list.name repeated, '
+        'vib_wavenumber, rot_temperature, dict.name.key with word and with numeric keys, element.X, '
+        'ordinary columns, the 14 NASA coefficients) every member count 11..30 x column order x header '
+        'padding, rows = all filled / each single member alone / only members >= 10 / only members < 10 / '
+        'every third empty / none (thorough: also every pair of kinds in one sheet); a case is distinct by its '
         '(headers, cells, comment row, sheet layout) and non-trivial when its set of reader branches '
         '(special setters used, empty cells, padded cells, presets, multi-row ...) differs from the '
         'default sheet (product), when a column has an empty cell below a filled one (block) or when '
@@ -89,6 +94,9 @@ COORDS = [
     ('rows', [1, 2, 3, 60]),
     ('comment', ['present', 'absent']),
     ('sheet', ['default', 'custom-second', 'custom-only', 'default-decoy-after']),
+    # how the options are given: omitted, every documented default passed explicitly, or the sheet
+    # addressed by its position (int) and the file by a pathlib.Path
+    ('kw', ['omitted', 'explicit-defaults', 'sheet-index+pathlib']),
 ]
 COORD_NAMES = [c for c, _ in COORDS]
 DEFAULT = {c: v[0] for c, v in COORDS}
@@ -121,6 +129,18 @@ CALL_DEPTH = {'quick': 2, 'thorough': 3}
 
 N_PRODUCT_SHARDS = {'quick': 16, 'thorough': 48}
 
+# ---- long family: indexed / repeatable header kinds with 11..30 members
+LONG_N = list(range(11, 31))
+LONG_LIST_NAMES = ['a', 'energy_grid', 'grid2']      # one letter; with an underscore; ending in a digit
+ELEMENT_SYMBOLS = ['H', 'He', 'Li', 'Be', 'B', 'C', 'N', 'O', 'F', 'Ne', 'Na', 'Mg', 'Al', 'Si', 'P', 'S', 'Cl',
+                   'Ar', 'K', 'Ca', 'Sc', 'Ti', 'V', 'Cr', 'Mn', 'Fe', 'Co', 'Ni', 'Cu', 'Zn']
+LONG_GROUPS = (['list.i0:' + nm for nm in LONG_LIST_NAMES] + ['list.i1:' + nm for nm in LONG_LIST_NAMES]
+               + ['list.rep:' + nm for nm in LONG_LIST_NAMES]
+               + ['vib_wavenumber', 'rot_temperature', 'dict.word-keys', 'dict.numeric-keys', 'element',
+                  'ordinary', 'nasa14'])
+LONG_ORDERS = ['identity', 'reversed', 'interleaved']
+N_LONG_SHARDS = {'quick': 16, 'thorough': 64}
+
 PLANNED_TAGS = (
     ['col:ordinary', 'col:ordinary-padded-header', 'col:element', 'col:formula', 'col:vib_wavenumber',
      'vib:x1', 'vib:x3', 'vib:x30', 'col:rot_temperature', 'rot:x3', 'col:list', 'col:list.i', 'col:list-repeated',
@@ -132,7 +152,12 @@ PLANNED_TAGS = (
      'sheet:named-second', 'sheet:decoy-after', 'order:identity', 'order:reversed', 'order:specials-first',
      'order:interleaved', 'order:models-last-reversed', 'block:empty-below-filled',
      'block:filled-below-empty', 'diff:one-row-sheet', 'calls:depth1', 'calls:depth2',
-     'calls:empty-where-earlier-call-had-a-value']
+     'calls:empty-where-earlier-call-had-a-value',
+     'kw:omitted', 'kw:explicit-defaults', 'kw:sheet-index+pathlib',
+     'long:cell-at-member>=10', 'long:only-members>=10-filled', 'long:last-member-alone',
+     'long:padded-headers', 'long:order-identity', 'long:order-reversed', 'long:order-interleaved']
+    + ['long:' + g for g in LONG_GROUPS]
+    + ['long:n%d' % n for n in LONG_N]
     + ['preset:' + p for p in PRESET_NAMES]
     + ['%s:%s' % (c, n) for c, ns in sorted(ref.MODE_CLASSES.items()) for n in sorted(ns)]
     + ['%s:EmptyMode' % c for c in sorted(ref.MODE_CLASSES)]
@@ -150,6 +175,12 @@ def bounds(tier):
                 call_histories='all sequences of <= %d read_excel calls over %d one-row sheets (6 quadruples x '
                                'masks %s) in one module state' % (CALL_DEPTH[tier], len(QUADS) * len(CALL_MASKS),
                                                                   CALL_MASKS),
+                long_family=dict(groups=LONG_GROUPS, members=[LONG_N[0], LONG_N[-1]], orders=LONG_ORDERS,
+                                 header_padding='identity order, kinds with distinct headers',
+                                 rows='all / each member alone / members >= 10 / members < 10 / every third '
+                                      'empty / none',
+                                 pairs_of_groups=(tier != 'quick')),
+                option_passing=['omitted', 'explicit-defaults', 'sheet-index+pathlib'],
                 differential='every row of every multi-row sheet is also read alone (60-row sheets '
                              'with 3 deviations: rows 0-5 and 54-59)')
 
@@ -191,6 +222,8 @@ def shards(tier):
             out.append(dict(fam='block', quad=q, rows=3, row0=m))
     for first in range(len(QUADS) * len(CALL_MASKS)):
         out.append(dict(fam='calls', first=first, depth=CALL_DEPTH[tier]))
+    for p in range(N_LONG_SHARDS[tier]):
+        out.append(dict(fam='long', tier=tier, part=p, of=N_LONG_SHARDS[tier]))
     if tier == 'thorough':
         for q in BLOCK4_THOROUGH:
             for m in range(256):
@@ -416,7 +449,8 @@ def build_product_case(dev):
     if nrows == 60 and len(dev) >= 3:
         diff_rows = list(range(6)) + list(range(54, 60))
     return dict(family='product', dev=dict(dev), headers=headers, rows=rows,
-                comment=(cfg['comment'] == 'present'), sheet=sheet, decoy=decoy, diff_rows=diff_rows)
+                comment=(cfg['comment'] == 'present'), sheet=sheet, decoy=decoy, diff_rows=diff_rows,
+                kw=cfg['kw'])
 
 
 def build_block_case(quad, nrows, mask):
@@ -427,6 +461,121 @@ def build_block_case(quad, nrows, mask):
             for r in range(nrows)]
     return dict(family='block', quad=quad, mask=mask, headers=headers, rows=rows, comment=True,
                 sheet=None, decoy=None)
+
+
+# ------------------------------------------------------------ long family
+def _long_group(group, n):
+    """(headers in member order, cell function f(member p, row r)) of a group of n members."""
+    kind, _, name = group.partition(':')
+
+    def mixed(p, r):
+        if p % 3 == 2:
+            return 's%d_%d' % (p, r)
+        return 10 * p + r if p % 3 == 1 else 10 * p + r + 0.5
+
+    def num(p, r):
+        return 100.5 + 37 * p + r
+    if kind == 'list.i0':
+        return ['list.%s.%d' % (name, i) for i in range(n)], mixed
+    if kind == 'list.i1':
+        return ['list.%s.%d' % (name, i) for i in range(1, n + 1)], mixed
+    if kind == 'list.rep':
+        return ['list.%s' % name] * n, mixed
+    if kind in ('vib_wavenumber', 'rot_temperature'):
+        return [kind] * n, num
+    if kind == 'dict.word-keys':
+        return ['dict.cov.k%d' % i for i in range(n)], mixed
+    if kind == 'dict.numeric-keys':
+        return ['dict.lat.%d' % i for i in range(n)], mixed
+    if kind == 'element':
+        return ['element.%s' % ELEMENT_SYMBOLS[i] for i in range(n)], (lambda p, r: 1 + p + r)
+    if kind == 'ordinary':
+        return ['p%d' % i for i in range(n)], mixed
+    if kind == 'nasa14':
+        return (['nasa.a_low.%d' % i for i in range(7)] + ['nasa.a_high.%d' % i for i in range(7)],
+                (lambda p, r: (p + 1) * 1.5 + r))
+    raise ValueError(group)
+
+
+def build_long_case(groups, n, order, hpad):
+    """Sheet with one (or two) groups of n members (nasa14: always 14) between a few companion
+    columns.  Rows: all members filled; each member alone; only members >= 10; only members < 10;
+    every third member empty; no member filled."""
+    cols = [dict(h='name', g=None, f=lambda r: 'sp%d' % r)]
+    comp = [dict(h='list.b.0', g=None, f=lambda r: (r + 0.25) if r % 2 == 0 else None),
+            dict(h='dict.d.k1', g=None, f=lambda r: ('v%d' % r) if r % 3 else None),
+            dict(h='list.b.1', g=None, f=lambda r: ('w%d' % r) if r % 2 == 0 else None),
+            dict(h='potentialenergy', g=None, f=lambda r: (-1.5 * r) if r % 2 else None)]
+    sizes = []
+    for gi, g in enumerate(groups):
+        heads, f = _long_group(g, n)
+        sizes.append(len(heads))
+        for pidx, h in enumerate(heads):
+            cols.append(dict(h=h, g=gi, p=pidx, fm=f))
+        cols.extend(comp[2 * gi:2 * gi + 2])
+    if len(groups) == 1:
+        cols.extend(comp[2:])
+    if order == 'reversed':
+        cols = cols[::-1]
+    elif order == 'interleaved':
+        cols = cols[0::2] + cols[1::2]
+    elif order != 'identity':
+        raise ValueError(order)
+    m = max(sizes)
+    pats = ['all'] + [('only', q) for q in range(m)] + ['tail', 'head', 'third', 'none']
+    rows = []
+    for r, pat in enumerate(pats):
+        row = []
+        for c in cols:
+            if c['g'] is None:
+                row.append(c['f'](r))
+                continue
+            q = c['p']
+            if pat == 'all':
+                fill = True
+            elif pat == 'tail':
+                fill = q >= 10
+            elif pat == 'head':
+                fill = q < 10
+            elif pat == 'third':
+                fill = q % 3 != 1
+            elif pat == 'none':
+                fill = False
+            else:
+                fill = (q == pat[1])
+            row.append(c['fm'](q, r) if fill else None)
+        rows.append(row)
+    counts = {}
+    for c in cols:
+        counts[c['h']] = counts.get(c['h'], 0) + 1
+    headers = [('  ' + c['h'] + ' ') if (hpad and counts[c['h']] == 1) else c['h'] for c in cols]
+    members = []
+    for gi in range(len(groups)):
+        pos = {c['p']: j for j, c in enumerate(cols) if c['g'] == gi}
+        members.append([pos[q] for q in range(sizes[gi])])
+    return dict(family='long', groups=list(groups), n=n, order=order, hpad=bool(hpad), headers=headers, rows=rows,
+                comment=True, sheet=None, decoy=None, members=members, diff_rows=[0, m + 1])
+
+
+def _long_unique_headers(group):
+    return group.split(':')[0] not in ('list.rep', 'vib_wavenumber', 'rot_temperature')
+
+
+def _long_configs(tier):
+    """(groups, n, order, hpad) of the long family, in a fixed order."""
+    for g in LONG_GROUPS:
+        for n in ([14] if g == 'nasa14' else LONG_N):
+            for order in LONG_ORDERS:
+                yield [g], n, order, False
+            if _long_unique_headers(g):
+                yield [g], n, 'identity', True
+    if tier == 'thorough':
+        for g1, g2 in itertools.combinations(LONG_GROUPS, 2):
+            if g1.startswith('list.') and g2.startswith('list.') and g1.split(':')[1] == g2.split(':')[1]:
+                continue                              # the two groups would share headers
+            for n in LONG_N:
+                for order in LONG_ORDERS:
+                    yield [g1, g2], n, order, False
 
 
 # ------------------------------------------------------------ running one case
@@ -500,8 +649,20 @@ def read_real(case, sig, rows=None, fresh=True):
         kwargs['skiprows'] = []
     if case['sheet'] is not None:
         kwargs['sheet_name'] = case['sheet']
+    how = case.get('kw', 'omitted')
+    io = path
+    if how == 'explicit-defaults':
+        # every documented default given explicitly (fresh objects: nothing shared with the signature)
+        kwargs.setdefault('skiprows', [1])
+        kwargs.update(header=0, delimiter='.', min_frequency_cutoff=0., include_imaginary=False)
+        if case['sheet'] is None:
+            kwargs['sheet_name'] = 0
+    elif how == 'sheet-index+pathlib':
+        import pathlib
+        io = pathlib.Path(path)
+        kwargs['sheet_name'] = 1 if case.get('decoy') == 'before' else 0
     try:
-        return read_excel(path, **kwargs)
+        return read_excel(io, **kwargs)
     except Exception as e:
         sig.update(_blame(e))
         raise
@@ -532,6 +693,8 @@ def _sig0(case):
     s = {'family': case['family']}
     if case['family'] == 'block':
         s['quad'] = case['quad']
+    if case['family'] == 'long':
+        s['group'] = '+'.join(g.split(':')[0] for g in case['groups'])
     return s
 
 
@@ -640,6 +803,25 @@ def case_tags(case):
         for o in ('identity', 'reversed', 'specials-first', 'interleaved', 'models-last-reversed'):
             if case['dev'].get('order', 'identity') == o:
                 tags.add('order:' + o)
+        tags.add('kw:' + case.get('kw', 'omitted'))
+    if case['family'] == 'long':
+        for g in case['groups']:
+            tags.add('long:' + g)
+        tags.add('long:n%d' % case['n'])
+        tags.add('long:order-' + case['order'])
+        if case['hpad']:
+            tags.add('long:padded-headers')
+        if len(case['groups']) > 1:
+            tags.add('long:two-groups')
+        for members in case['members']:
+            for row in data:
+                cells = [row[j] for j in members]
+                if any(c is not None for c in cells[10:]):
+                    tags.add('long:cell-at-member>=10')
+                    if all(c is None for c in cells[:10]):
+                        tags.add('long:only-members>=10-filled')
+                if sum(c is not None for c in cells) == 1 and cells[-1] is not None:
+                    tags.add('long:last-member-alone')
     return tags
 
 
@@ -649,7 +831,7 @@ _SINGLE_CACHE = {}
 def _single_row_record(case, row, sig):
     """Canonical record of the one-row sheet that holds only `row` (same headers and options)."""
     key = (tuple(case['headers']), tuple((type(c).__name__, c) for c in row), case['comment'],
-           case['sheet'], case.get('decoy'))
+           case['sheet'], case.get('decoy'), case.get('kw', 'omitted'))
     if key in _SINGLE_CACHE:
         return _SINGLE_CACHE[key], False
     out = read_real(case, sig, rows=[row])
@@ -787,6 +969,8 @@ def run_shard(shard, ctx):
             _run_product(shard, ctx)
         elif shard['fam'] == 'calls':
             _run_calls(shard, ctx)
+        elif shard['fam'] == 'long':
+            _run_long(shard, ctx)
         else:
             _run_block(shard, ctx)
     finally:
@@ -801,11 +985,24 @@ def _run_product(shard, ctx):
         if n % shard['of'] != shard['part']:
             continue
         case = build_product_case(dev)
-        ctx.state(('p', case['headers'], case['rows'], case['comment'], case['sheet'], case['decoy']))
+        ctx.state(('p', case['headers'], case['rows'], case['comment'], case['sheet'], case['decoy'], case['kw']))
         check_case(case, ctx)
         if case_tags(case) != default_tags:
             ctx.nontrivial(('p', sorted(dev.items())))
         if len(dev) == shard['level']:
+            ctx.sample(case, limit=1)
+
+
+def _run_long(shard, ctx):
+    for k, (groups, n, order, hpad) in enumerate(_long_configs(shard['tier'])):
+        if k % shard['of'] != shard['part']:
+            continue
+        case = build_long_case(groups, n, order, hpad)
+        key = ('l', groups, n, order, hpad)
+        ctx.state(key)
+        check_case(case, ctx)
+        ctx.nontrivial(key)             # > 10 members: a branch the default sheet never reaches
+        if n == 30 and order == 'interleaved':
             ctx.sample(case, limit=1)
 
 
@@ -857,11 +1054,13 @@ def _run_calls(shard, ctx):
         frontier = nxt
 
 
-LEVEL_TEXT = ('Deviation-bounded product enumeration of worksheet descriptions (19 coordinates: ordinary and '
+LEVEL_TEXT = ('Deviation-bounded product enumeration of worksheet descriptions (20 coordinates: ordinary and '
               'special column groups with their emptiness patterns, column order, cell style, header padding, '
-              '1/2/3/60 rows, comment row, sheet layout), complete at 2 (quick) / 3 (thorough) deviations from '
+              '1/2/3/60 rows, comment row, sheet layout, how options are passed), complete at 2 (quick) / 3 (thorough) deviations from '
               'the default sheet, plus all 2^12 (thorough also 2^16) emptiness patterns of a rows x 4 block for '
-              'each column quadruple, plus BFS over histories of 2 (thorough 3) reader calls in one module state; '
+              'each column quadruple, plus BFS over histories of 2 (thorough 3) reader calls in one module state, '
+              'plus, for each of 16 indexed / repeatable header kinds, every member count 11-30 in three column '
+              'orders (thorough: every pair of kinds in one sheet); '
               'every sheet is written with openpyxl and read by the real read_excel; '
               'records compared key by key with a documentation-derived reference and, row by row, with the '
               'one-row sheet holding only that row.')
